@@ -61,7 +61,7 @@ mkdir -p "$OUT"; cp "$SRC/patch.diff" "$SRC/demo.cpp" "$SRC/README.txt" "$OUT/" 
 RES=""
 for id in $PROP $EXTRA; do
   T0=$(date +%s)
-  ( cd /verif && VERIF_REPO="$WT" ./check "$id" quick ) >"$WT/check_$id.log" 2>&1; CRC=$?
+  ( cd ${VERIF_CHECK_DIR:-/verif} && VERIF_REPO="$WT" ./check "$id" quick ) >"$WT/check_$id.log" 2>&1; CRC=$?
   T1=$(date +%s)
   NV=$(grep -c '^VIOLATION' "$WT/check_$id.log")
   log "check $id quick on the refactored tree: rc=$CRC violations=$NV ($((T1-T0))s)"
